@@ -129,7 +129,9 @@ def node_label_counts(tb):
 def root_label_counts(tb):
     out = {}
     for s in tb:
-        out[s["root"][0]] = out.get(s["root"][0], 0) + 1
+        r = s["root"]
+        lab = s["tokens"][r - 1][1] if isinstance(r, int) else r[0]   # a tree may be one token
+        out[lab] = out.get(lab, 0) + 1
     return out
 
 
